@@ -40,7 +40,7 @@ Definition norm_decls (ds : nsmap) : nsmap :=
 
 Fixpoint rnode_of (c : nctx) (n : snode) : option rnode :=
   match n with
-  | SText t => Some (RText (sax_escape t))
+  | SText t => Some (RText (sax_escape_text t))
   | SNode ds q ats ks =>
       let c' := nc_sets c ds in
       match n_qname c' q, n_attrs c' ats,
@@ -225,10 +225,15 @@ Definition finished (pend : option (str * nsmap * list (str * str))) (out : list
 
 Lemma esc1_nonempty c : esc1 c <> [].
 Proof. unfold esc1. destruct (c =? 38); [discriminate|]. destruct (c =? 62); [discriminate|]. destruct (c =? 60); discriminate. Qed.
-Lemma sax_escape_nonempty t : t <> [] -> sax_escape t <> [].
+Lemma esc1t_nonempty c : esc1t c <> [].
 Proof.
-  destruct t as [|c t]; [contradiction|]. intros _. rewrite sax_escape_cons.
-  pose proof (esc1_nonempty c). destruct (esc1 c); [contradiction|discriminate].
+  unfold esc1t. destruct (c =? 38); [discriminate|]. destruct (c =? 62); [discriminate|].
+  destruct (c =? 60); [discriminate|]. destruct (c =? 13); discriminate.
+Qed.
+Lemma sax_escape_nonempty t : t <> [] -> sax_escape_text t <> [].
+Proof.
+  destruct t as [|c t]; [contradiction|]. intros _. rewrite sax_escape_text_cons.
+  pose proof (esc1t_nonempty c). destruct (esc1t c); [contradiction|discriminate].
 Qed.
 
 (* attributes as written *)
@@ -297,7 +302,7 @@ Theorem native_writes_all n : native_writes n.
 Proof.
   induction n as [t|ds q ats ks IH] using snode_ind2; intros e c saved pend out Hwf.
   - cbn [sn_wf] in Hwf. destruct Hwf as [Hne _].
-    exists (RText (sax_escape t)). split; [reflexivity|split; [cbn; apply sax_escape_nonempty, Hne|]].
+    exists (RText (sax_escape_text t)). split; [reflexivity|split; [cbn; apply sax_escape_nonempty, Hne|]].
     cbn [sflat nsteps nstep]. destruct t as [|x t]; [contradiction|].
     unfold n_finish, nst. cbn [n_pend n_saved n_cur n_undecl n_out].
     destruct pend as [[[nm d0] a0]|]; reflexivity.
@@ -417,8 +422,8 @@ Qed.
 Theorem resolves_all n : resolves n.
 Proof.
   induction n as [t|ds q ats ks IH] using snode_ind2; intros e c r Hwf Hr.
-  - cbn [rnode_of] in Hr. inversion Hr; subst r. cbn [sn_wf] in Hwf. destruct Hwf as [_ [Hx Hcr]].
-    cbn [resolve_node itree_of]. rewrite (hostile_text_safe_data t Hx Hcr). reflexivity.
+  - cbn [rnode_of] in Hr. inversion Hr; subst r. cbn [sn_wf] in Hwf. destruct Hwf as [_ Hx].
+    cbn [resolve_node itree_of]. rewrite (hostile_text_safe_data t Hx). reflexivity.
   - apply sn_wf_node in Hwf. destruct Hwf as [Hds [Hnd [Hname [Hats [Hnda Hkids]]]]].
     rewrite rnode_of_node in Hr.
     destruct Hname as [name [Hq Hen]]. rewrite Hq in Hr.
